@@ -357,10 +357,12 @@ def gen_groups(quick):
         G.append(Group("find", s, [subs, [(num(k), int_label(k, L, bd)) for k in bd[:-1]] or [(num(0), "0")]], ("find", "bb")))
         if nch == 2:
             G.append(Group("find", s, [[(s, "2-char hit")], [(num(0), "0"), (num(bd[1]), "in"), (num(1), "+1")]], ("find", "bb")))
-        G.append(Group("split", s, [subs], ("split", "bb")))
-        G.append(Group("replace", s, [subs, [(st("a"), "new 1")]], ("replace", "bb")))
-        G.append(Group("starts_with", s, [subs], ("starts_with", "bb")))
-        G.append(Group("ends_with", s, [subs], ("ends_with", "bb")))
+        # the Rust-std calls: the characters of the receiver and four fixed near misses
+        fewer = [x for x in subs if x[0][1] in t or x[0][1] in ("\u0080", "\u00bf", "\uffff", "\U0010FFFF")] if quick else subs
+        G.append(Group("split", s, [fewer], ("split", "bb")))
+        G.append(Group("replace", s, [fewer, [(st("a"), "new 1")]], ("replace", "bb")))
+        G.append(Group("starts_with", s, [fewer], ("starts_with", "bb")))
+        G.append(Group("ends_with", s, [fewer], ("ends_with", "bb")))
     # byte-level near misses: same lead byte, different continuation
     for a, b in [("\u00e9", "\u00e8"), ("\u20ac", "\u20ad"), ("\U0001F600", "\U0001F601"), ("a\u00e9", "a\u00e8")]:
         for f in ("starts_with", "ends_with"):
@@ -800,7 +802,11 @@ def run(ctx):
         "evaluations": len(probes) + n_esc,
         "escape_literals_checked_against_python_oracle": n_esc,
         "distinct_nontrivial": len(combos),
-        "rule": "exhaustive sweep (no sampling): all strings of <= %d characters over {a, e-acute, euro sign, U+1F600} (1-4 bytes); all vecs/tuples of <= %d "
+        "rule": "exhaustive sweep (no sampling): all strings of <= %d characters over {a, e-acute, euro sign, U+1F600} (1-4 bytes); all strings of <= 2 "
+                "characters over the 17-character BOUNDARY-BYTE alphabet (continuation bytes 80/BF and the extremes of each encoding length: U+0080, "
+                "U+00BF, U+00C0, U+00FF, U+07FF, U+0800, U+1000, U+D7FF, U+E000, U+FFFD, U+FFFF, U+10000, U+1F43F, U+3FFFF, U+40000, U+10FFFF, a) through "
+                "every byte-walking function (index at every offset, all range pairs, find, count_chars, char_byte_index, to_bytes/to_code_points, "
+                "from_code_points/from_utf8 round trips, for/next iteration, split/replace/starts_with/ends_with); all vecs/tuples of <= %d "
                 "elements over {1, 'e-acute', nil}; every byte offset 0..len+1 and -len-1..-1 as index, every pair of them (plus +-2^63, +-inf) as range "
                 "ends, plus 0.5, NaN, +-inf, +-2^63, 2^63-1024, -2^63-2048, +-1e30, -0, nil, string, bool, vec, tuple; every string native with "
                 "arguments from the same pools, wrong arity 0..3 and wrong types; from_utf8 over all byte sequences of <= %d bytes from a 22-byte "
